@@ -20,9 +20,9 @@ var propPkgs = map[string][]string{
 	"C02": {"banyand/measure"},
 	"C03": {"banyand/measure"},
 	"C09": {"pkg/query/logical/measure", "pkg/query/executor", "pkg/query/logical/trace", "pkg/iter"},
-	"C08": {"pkg/filter", "pkg/encoding", "pkg/encoding/vararray", "|", "banyand/measure"},
-	"C05": {"banyand/internal/snapshot", "|", "banyand/measure"},
-	"C19": {"banyand/internal/storage", "pkg/timestamp", "|", "banyand/measure"},
+	"C08": {"pkg/filter", "pkg/encoding", "pkg/encoding/vararray", "|", "banyand/measure", "|", "banyand/stream"},
+	"C05": {"banyand/internal/snapshot", "|", "banyand/measure", "|", "banyand/stream", "|", "banyand/trace"},
+	"C19": {"banyand/internal/storage", "pkg/timestamp", "|", "banyand/measure", "|", "banyand/stream", "|", "banyand/trace"},
 	"C16": {"pkg/node", "pkg/partition", "pkg/convert"},
 	"C10": {"pkg/query/aggregation"},
 	"C13": {"pkg/pipeline/sdk"},
